@@ -1,43 +1,698 @@
-"""Correspondence run: Lean models (Model/Colinear, Model/JoinSegments) vs the real library.
-Usage: /venv/bin/python /tmp/agents/p_c15c18/corr.py [seed]"""
+"""Correspondence of the hand models `Model/Colinear.lean` (C15) and `Model/JoinSegments.lean`
+(C18) with the real library.
+
+C15  model.remove_colinear_polygon / _polyline2 / _polyline3, model.remove_duplicate /
+     remove_duplicate3   vs   Polygon2D.remove_colinear_vertices, Face3D._remove_colinear,
+     Face3D.remove_colinear_vertices (faces in random planes; the model is fed the face's own
+     `polygon2d`), Polyline2D / Polyline3D.remove_colinear_vertices,
+     Polygon2D / Face3D.remove_duplicate_vertices.  Compared: the list of kept POSITIONS of the
+     input (exactly), resp. the AssertionError.
+C18  model.join_segments / join_segments3   vs   _polyline._group_vertices and
+     Polyline2D / Polyline3D.join_segments.  Compared: the chains (vertex lists, exactly) and
+     the kind of object built from each chain.
+
+The models are exact (ℚ); the code runs in doubles.  A disagreement whose cause is a threshold
+decision with the exact test value inside the rounding band of the threshold is counted in
+`float_ties` and not reported.
+
+Stand-alone:  /venv/bin/python /verif/tools/harness/corr/cleanup.py [C15|C18] [seed] [tier]"""
 import math
 import os
 import random
 import sys
+import time
+from fractions import Fraction
 
-sys.path.insert(0, '/repo')
-sys.path.insert(0, '/verif/tools/harness')
+_H = os.path.dirname(os.path.dirname(os.path.abspath(__file__)))
+if _H not in sys.path:
+    sys.path.insert(0, _H)
 import lbg  # noqa: E402
 
-HERE = os.path.dirname(os.path.abspath(__file__))
-lbg.LEAN_DIR = os.path.join(HERE, 'lean')
-lbg.scratch_dir = lambda: HERE
-
 from ladybug_geometry.geometry2d.pointvector import Point2D  # noqa: E402
-from ladybug_geometry.geometry3d.pointvector import Point3D  # noqa: E402
+from ladybug_geometry.geometry3d.pointvector import Point3D, Vector3D  # noqa: E402
 from ladybug_geometry.geometry2d.polygon import Polygon2D  # noqa: E402
 from ladybug_geometry.geometry2d.polyline import Polyline2D  # noqa: E402
 from ladybug_geometry.geometry3d.polyline import Polyline3D  # noqa: E402
 from ladybug_geometry.geometry2d.line import LineSegment2D  # noqa: E402
 from ladybug_geometry.geometry3d.line import LineSegment3D  # noqa: E402
 from ladybug_geometry.geometry3d.face import Face3D  # noqa: E402
-from ladybug_geometry._polyline import _group_vertices  # noqa: E402
+from ladybug_geometry.geometry3d.plane import Plane  # noqa: E402
+from ladybug_geometry import _polyline as _pl  # noqa: E402
 
-seed = int(sys.argv[1]) if len(sys.argv) > 1 else 1
-R = random.Random(seed)
+PROPS = ['C15', 'C18']
+MODELS = ['LbgVerif/Model/Colinear.lean', 'LbgVerif/Model/JoinSegments.lean',
+          'LbgVerif/Model/Dispatch_Cleanup.lean']
+REAL = ['ladybug_geometry/geometry2d/polygon.py:Polygon2D.remove_colinear_vertices',
+        'ladybug_geometry/geometry2d/polygon.py:Polygon2D.remove_duplicate_vertices',
+        'ladybug_geometry/geometry3d/face.py:Face3D._remove_colinear',
+        'ladybug_geometry/geometry3d/face.py:Face3D.remove_colinear_vertices',
+        'ladybug_geometry/geometry3d/face.py:Face3D.remove_duplicate_vertices',
+        'ladybug_geometry/geometry2d/polyline.py:Polyline2D.remove_colinear_vertices',
+        'ladybug_geometry/geometry3d/polyline.py:Polyline3D.remove_colinear_vertices',
+        'ladybug_geometry/_polyline.py:_group_vertices,_build_polyline,_connect_seg_to_poly',
+        'ladybug_geometry/geometry2d/polyline.py:Polyline2D.join_segments',
+        'ladybug_geometry/geometry3d/polyline.py:Polyline3D.join_segments']
+TRUSTED = [
+    'C15/C18 model correspondence: the models decide thresholds exactly over Q, the code in '
+    'doubles; a differing decision is attributed to rounding (counted as float tie, not '
+    'reported) only if a test on the exact path has |value - threshold| <= 1e-9*threshold + '
+    '64 ulp of the summed magnitudes of the products that are added up (cancellation bound), '
+    'resp. if the is_equivalent formula evaluated in doubles differs from its exact value',
+    'C15: Face3D.remove_colinear_vertices is compared on the index level only; the projection '
+    'to the face plane (Face3D.polygon2d) is taken from the real object',
+    'C15: faces with holes (the same scan applied per loop) are not generated',
+    'C18: the end points given to the model are the ones the library reads (seg.p1, '
+    'seg.p2 = p + v); a LineSegment rebuilt from a two-vertex chain is compared within 1e-9']
+
 W = lbg.wnum
+EPS = 2.0 ** -52
+QUICK_BUDGET, THOROUGH_BUDGET = 16.0, 240.0
+BATCH = 12000
 
 
-def w2(p):
-    return [W(p.x), W(p.y)]
+# ====================================================================== helpers
+def _w(p):
+    return [W(c) for c in p]
 
 
-def w3(p):
-    return [W(p.x), W(p.y), W(p.z)]
+def _coords(p):
+    return (p.x, p.y, p.z) if hasattr(p, 'z') else (p.x, p.y)
 
 
-# ------------------------------------------------------------------ generators (C15)
-def base_loop(k):
+def _positions(orig, kept):
+    pos = dict((id(p), i) for i, p in enumerate(orig))
+    return [pos[id(p)] for p in kept]
+
+
+def _canon_pts(j):
+    """wire list of chains -> Fractions."""
+    return [[[lbg.rnum(c) for c in p] for p in chain] for chain in j]
+
+
+def _pyidx(n, j):
+    return j + n if j < 0 else j
+
+
+# ---------------------------------------------------------------------- exact tests with band
+def _tri2(P, tol, i2, i1, i0):
+    """2D test of the source on exact numbers -> (keep, inside the rounding band)."""
+    v2, v1, v = P[i2], P[i1], P[i0]
+    prods = [v2[0] * v1[1], v2[1] * v1[0], v1[0] * v[1], v1[1] * v[0], v[0] * v2[1],
+             v[1] * v2[0]]
+    a = prods[0] - prods[1] + prods[2] - prods[3] + prods[4] - prods[5]
+    bsq = (v[0] - v2[0]) ** 2 + (v[1] - v2[1]) ** 2
+    if bsq < tol * tol:
+        bsq = tol * tol
+    keep = 4 * a * a >= bsq * tol * tol
+    thr = math.sqrt(float(bsq)) * float(tol) / 2
+    slack = 64 * EPS * float(sum(abs(p) for p in prods))
+    return keep, abs(float(abs(a)) - thr) <= 1e-9 * thr + slack
+
+
+def _tri3(P, tol, i2, i1, i0):
+    """3D test: `P[i1]` is tested in the triangle `P[i2] P[i1] P[i0]`."""
+    v2, v, v3 = P[i2], P[i1], P[i0]
+    d1 = [a - b for a, b in zip(v2, v)]
+    d2 = [a - b for a, b in zip(v3, v)]
+    prods = [d1[1] * d2[2], d1[2] * d2[1], d1[2] * d2[0], d1[0] * d2[2], d1[0] * d2[1],
+             d1[1] * d2[0]]
+    c = (prods[0] - prods[1], prods[2] - prods[3], prods[4] - prods[5])
+    asq = sum(x * x for x in c)
+    bsq = sum((a - b) ** 2 for a, b in zip(v3, v2))
+    if bsq < tol * tol:
+        bsq = tol * tol
+    keep = 4 * asq >= bsq * tol * tol
+    thr = math.sqrt(float(bsq)) * float(tol) / 2
+    big = float(max(abs(x) for p in (v2, v, v3) for x in p))
+    slack = 64 * EPS * (float(sum(abs(p) for p in prods)) +
+                        big * float(sum(abs(x) for x in d1 + d2)))
+    return keep, abs(math.sqrt(float(asq)) - thr) <= 1e-9 * thr + slack
+
+
+def _polygon_walk(n, test):
+    """The closed-loop scan (python transcription of Model/Colinear.polygonIdx) ->
+    (kept positions | None, some visited test lies in the rounding band)."""
+    out, skip, first, is_first, band = [], 0, 0, True, False
+    for i in range(n):
+        keep, b = test(_pyidx(n, i - 2 - skip), _pyidx(n, i - 1), i)
+        band = band or b
+        if keep:
+            out.append(_pyidx(n, i - 1))
+            skip = 0
+            if is_first:
+                is_first, first = False, i - 1
+        else:
+            skip += 1
+    if skip != 0 and first != -1:
+        if 2 + skip > n:
+            return None, band
+        keep, b = test(_pyidx(n, -2 - skip), n - 1, _pyidx(n, first))
+        band = band or b
+        if keep:
+            out.append(n - 1)
+    return out, band
+
+
+def _polyline_walk(n, test):
+    if n == 3:
+        return [0, 1, 2], False
+    out, skip, band = [0], 0, False
+    for i in range(n - 2):
+        keep, b = test(_pyidx(n, i - skip), i + 1, i + 2)
+        band = band or b
+        if keep:
+            out.append(i + 1)
+            skip = 0
+        else:
+            skip += 1
+    return out + [n - 1], band
+
+
+def _eqv_exact_vs_float(p, q, tol):
+    """is_equivalent: (exact value, value of the source formula in doubles)."""
+    ex = all(abs(Fraction(a) - Fraction(b)) <= Fraction(tol) for a, b in zip(p, q))
+    fl = all(abs(a - b) <= tol for a, b in zip(p, q))
+    return ex, fl
+
+
+# ====================================================================== kinds
+class Kind(object):
+    """One family of comparisons.  case(inp) -> (requests, real) runs the real code (expected
+    exceptions are part of `real`, anything else propagates and becomes a disagreement);
+    judge(inp, answers, real) -> None | 'tie' | (what_class, detail, model)."""
+    prop = None
+    ops = ()
+
+    def case(self, inp):
+        raise NotImplementedError
+
+    def judge(self, inp, answers, real):
+        raise NotImplementedError
+
+    def shrink(self, inp):
+        return []
+
+    def nontrivial(self, inp, real):
+        return True
+
+    def size(self, inp):
+        return 0
+
+
+class _IdxKind(Kind):
+    """Kinds whose result is a list of kept positions or 'assert'."""
+    prop = 'C15'
+    dim = 2
+    op = None
+    model_ctor_min = 3      # the public method builds an object that asserts >= 3 vertices
+
+    def pts_for_model(self, inp):
+        return inp['pts']
+
+    def case(self, inp):
+        real, mpts = self.real(inp)
+        return [(self.op, [[_w(p) for p in mpts], W(inp['tol'])])], \
+            {'res': real, 'mpts': [list(p) for p in mpts]}
+
+    def real(self, inp):
+        raise NotImplementedError
+
+    def norm_model(self, val):
+        if val is None:
+            return 'assert'
+        val = [int(i) for i in val]
+        return 'assert' if len(val) < self.model_ctor_min else val
+
+    def walk(self, mpts, tol):
+        return None, False
+
+    def judge(self, inp, answers, real):
+        ok, val = answers[0]
+        if not ok:
+            return ('driver error', str(val)[:200], None)
+        model = self.norm_model(val)
+        r = real['res']
+        if model == r:
+            return None
+        P = [[Fraction(c) for c in p] for p in real['mpts']]
+        w, band = self.walk(P, Fraction(inp['tol']))
+        if w is not None or model == 'assert':
+            wn = self.norm_model(w)
+            if band and wn == model:
+                return 'tie'
+        if model == 'assert':
+            cls = 'model raises AssertionError, real returns vertices'
+        elif r == 'assert':
+            cls = 'real raises AssertionError, model returns vertices'
+        else:
+            ms, rs = set(model), set(r)
+            if rs > ms:
+                cls = 'real keeps vertices the model removes'
+            elif rs < ms:
+                cls = 'real removes vertices the model keeps'
+            elif rs == ms:
+                cls = 'same vertices in a different order'
+            else:
+                cls = 'kept vertices differ both ways'
+        return (cls, 'n=%d tol=%r model=%s real=%s' % (len(inp['pts']), inp['tol'], model, r),
+                model)
+
+    def shrink(self, inp):
+        pts = inp['pts']
+        n = len(pts)
+        out = []
+        for size in (n // 2, n // 4, 1):
+            if size < 1:
+                continue
+            step = max(1, size)
+            for s in range(0, n, step if size > 1 else 1):
+                q = pts[:s] + pts[s + size:]
+                if len(q) >= 3 and len(q) < n:
+                    d = dict(inp)
+                    d['pts'] = q
+                    out.append(d)
+        return out
+
+    def nontrivial(self, inp, real):
+        r = real['res']
+        return r == 'assert' or len(r) < len(inp['pts'])
+
+    def size(self, inp):
+        return len(inp['pts'])
+
+
+class PolygonColinear(_IdxKind):
+    op = 'model.remove_colinear_polygon'
+
+    def real(self, inp):
+        vs = [Point2D(*p) for p in inp['pts']]
+        poly = Polygon2D(vs)
+        try:
+            new = poly.remove_colinear_vertices(inp['tol'])
+        except AssertionError:
+            return 'assert', inp['pts']
+        return _positions(vs, new.vertices), inp['pts']
+
+    def walk(self, P, tol):
+        return _polygon_walk(len(P), lambda a, b, c: _tri2(P, tol, a, b, c))
+
+
+_FACE = Face3D([Point3D(0, 0, 0), Point3D(1, 0, 0), Point3D(0, 1, 0)])
+
+
+class FaceColinearPrivate(PolygonColinear):
+    """Face3D._remove_colinear(pts_3d, pts_2d, tol): returns a list, no constructor."""
+    model_ctor_min = 0
+
+    def real(self, inp):
+        p2 = [Point2D(*p) for p in inp['pts']]
+        p3 = [Point3D(p[0], p[1], 0) for p in inp['pts']]
+        try:
+            new = _FACE._remove_colinear(p3, p2, inp['tol'])
+        except AssertionError:
+            return 'assert', inp['pts']
+        return _positions(p3, new), inp['pts']
+
+
+class FaceColinearPublic(PolygonColinear):
+    """Face3D.remove_colinear_vertices on a face in any plane; inp['pts'] are 3D points,
+    inp['plane'] (optional) = [normal, origin] passed to the constructor."""
+
+    def real(self, inp):
+        vs = [Point3D(*p) for p in inp['pts']]
+        if inp.get('plane'):
+            face = Face3D(vs, Plane(Vector3D(*inp['plane'][0]), Point3D(*inp['plane'][1])))
+        else:
+            face = Face3D(vs)
+        orig = list(face.vertices)
+        mpts = [(p.x, p.y) for p in face.polygon2d.vertices]
+        try:
+            new = face.remove_colinear_vertices(inp['tol'])
+        except AssertionError:
+            return 'assert', mpts
+        return _positions(orig, new.vertices), mpts
+
+
+class PolygonDuplicate(_IdxKind):
+    op = 'model.remove_duplicate'
+
+    def real(self, inp):
+        vs = [Point2D(*p) for p in inp['pts']]
+        poly = Polygon2D(vs)
+        try:
+            new = poly.remove_duplicate_vertices(inp['tol'])
+        except AssertionError:
+            return 'assert', inp['pts']
+        return _positions(vs, new.vertices), inp['pts']
+
+    def walk(self, P, tol):
+        n = len(P)
+        out, band = [], False
+        for i in range(n):
+            ex, fl = _eqv_exact_vs_float([float(c) for c in P[i]], [float(c) for c in P[i - 1]],
+                                         float(tol))
+            band = band or ex != fl
+            if not ex:
+                out.append(i)
+        return out, band
+
+
+class FaceDuplicate(PolygonDuplicate):
+    op = 'model.remove_duplicate3'
+    dim = 3
+
+    def real(self, inp):
+        vs = [Point3D(*p) for p in inp['pts']]
+        try:
+            face = Face3D(vs)
+            orig = list(face.vertices)
+            mpts = [_coords(p) for p in orig]
+            new = face.remove_duplicate_vertices(inp['tol'])
+        except AssertionError:
+            return 'assert', inp['pts']
+        return _positions(orig, new.vertices), mpts
+
+
+class Polyline2Colinear(_IdxKind):
+    op = 'model.remove_colinear_polyline2'
+
+    def real(self, inp):
+        vs = [Point2D(*p) for p in inp['pts']]
+        try:
+            new = Polyline2D(vs).remove_colinear_vertices(inp['tol'])
+        except AssertionError:
+            return 'assert', inp['pts']
+        return _positions(vs, new.vertices), inp['pts']
+
+    def walk(self, P, tol):
+        return _polyline_walk(len(P), lambda a, b, c: _tri2(P, tol, a, b, c))
+
+
+class Polyline3Colinear(_IdxKind):
+    op = 'model.remove_colinear_polyline3'
+    dim = 3
+
+    def real(self, inp):
+        vs = [Point3D(*p) for p in inp['pts']]
+        try:
+            new = Polyline3D(vs).remove_colinear_vertices(inp['tol'])
+        except AssertionError:
+            return 'assert', inp['pts']
+        return _positions(vs, new.vertices), inp['pts']
+
+    def walk(self, P, tol):
+        return _polyline_walk(len(P), lambda a, b, c: _tri3(P, tol, a, b, c))
+
+
+class Join(Kind):
+    prop = 'C18'
+
+    def __init__(self, dim):
+        self.dim = dim
+        self.op = 'model.join_segments' if dim == 2 else 'model.join_segments3'
+        self.seg = LineSegment2D if dim == 2 else LineSegment3D
+        self.pt = Point2D if dim == 2 else Point3D
+        self.poly = Polyline2D if dim == 2 else Polyline3D
+
+    def case(self, inp):
+        tol = inp['tol']
+        objs = [self.seg.from_end_points(self.pt(*a), self.pt(*b)) for a, b in inp['segs']]
+        ends = [[_coords(s.p1), _coords(s.p2)] for s in objs]
+        args = [[[_w(a), _w(b)] for a, b in ends], W(tol)]
+        if len(objs) >= 2:
+            grouped = [[_coords(p) for p in chain] for chain in _pl._group_vertices(objs, tol)]
+        else:
+            grouped = None
+        joined = self.poly.join_segments(objs, tol)
+        jn = []
+        for o in joined:
+            if isinstance(o, self.seg):
+                jn.append(['segment', [_coords(o.p1), _coords(o.p2)]])
+            elif isinstance(o, self.poly):
+                jn.append(['polyline', [_coords(p) for p in o.vertices]])
+            else:
+                jn.append([type(o).__name__, []])
+        return [(self.op, args)], {'grouped': grouped, 'joined': jn, 'ends': ends}
+
+    def judge(self, inp, answers, real):
+        ok, val = answers[0]
+        if not ok:
+            return ('driver error', str(val)[:200], None)
+        model = _canon_pts(val)
+        what = None
+        if real['grouped'] is not None:
+            g = [[[Fraction(c) for c in p] for p in ch] for ch in real['grouped']]
+            if g != model:
+                what = ('_group_vertices: chains differ',
+                        'model %s real %s' % (_short(model), _short(g)))
+        if what is None:
+            jn = real['joined']
+            if [len(ch) for ch in model] != [len(v) for (_, v) in jn]:
+                what = ('join_segments: chain lengths differ', 'model %s real %s' % (
+                    [len(ch) for ch in model], [len(v) for (_, v) in jn]))
+            else:
+                for ch, (kind, vs) in zip(model, jn):
+                    want = 'segment' if len(ch) == 2 else 'polyline'
+                    if kind != want:
+                        what = ('join_segments: wrong object kind',
+                                '%s for a chain of %d vertices' % (kind, len(ch)))
+                        break
+                    for k, (a, b) in enumerate(zip(ch, vs)):
+                        exact = kind == 'polyline' or k == 0
+                        for x, y in zip(a, b):
+                            d = abs(x - Fraction(y))
+                            if (exact and d != 0) or d > Fraction(1, 10 ** 9) * (1 + abs(x)):
+                                what = ('join_segments: vertices differ',
+                                        'model %s real %s' % (_short([ch]), vs))
+                    if what:
+                        break
+        if what is None:
+            return None
+        # rounding: is_equivalent decided differently in doubles than exactly on some pair
+        pts = [p for e in real['ends'] for p in e]
+        for p in pts:
+            for q in pts:
+                ex, fl = _eqv_exact_vs_float(p, q, inp['tol'])
+                if ex != fl:
+                    return 'tie'
+        return (what[0], 'nseg=%d tol=%r %s' % (len(inp['segs']), inp['tol'], what[1]),
+                [[[W(c) for c in p] for p in ch] for ch in model])
+
+    def shrink(self, inp):
+        segs = inp['segs']
+        out = []
+        n = len(segs)
+        for size in (n // 2, 1):
+            if size < 1:
+                continue
+            for s in range(0, n, size):
+                q = segs[:s] + segs[s + size:]
+                if len(q) < n:
+                    out.append({'segs': q, 'tol': inp['tol']})
+        return out
+
+    def nontrivial(self, inp, real):
+        return any(len(v) > 2 for (_, v) in real['joined'])
+
+    def size(self, inp):
+        return len(inp['segs'])
+
+
+def _short(chains):
+    return [[tuple(float(c) for c in p) for p in ch] for ch in chains]
+
+
+KINDS = {
+    'Polygon2D.remove_colinear_vertices': PolygonColinear(),
+    'Face3D._remove_colinear': FaceColinearPrivate(),
+    'Face3D.remove_colinear_vertices': FaceColinearPublic(),
+    'Polygon2D.remove_duplicate_vertices': PolygonDuplicate(),
+    'Face3D.remove_duplicate_vertices': FaceDuplicate(),
+    'Polyline2D.remove_colinear_vertices': Polyline2Colinear(),
+    'Polyline3D.remove_colinear_vertices': Polyline3Colinear(),
+    'Polyline2D.join_segments': Join(2),
+    'Polyline3D.join_segments': Join(3),
+}
+K_POLYGON, K_FACE, K_FACE3, K_DUP, K_DUP3, K_PL2, K_PL3, K_J2, K_J3 = (
+    'Polygon2D.remove_colinear_vertices', 'Face3D._remove_colinear',
+    'Face3D.remove_colinear_vertices', 'Polygon2D.remove_duplicate_vertices',
+    'Face3D.remove_duplicate_vertices', 'Polyline2D.remove_colinear_vertices',
+    'Polyline3D.remove_colinear_vertices', 'Polyline2D.join_segments',
+    'Polyline3D.join_segments')
+
+
+# ====================================================================== engine
+class _Engine(object):
+    def __init__(self, ctx, prop):
+        self.ctx, self.prop = ctx, prop
+        self.t0 = time.time()
+        thorough = ctx.tier == 'thorough' or bool(getattr(ctx, 'broken', None))
+        self.thorough = thorough
+        budget = THOROUGH_BUDGET if thorough else QUICK_BUDGET
+        self.t_end = min(getattr(ctx, 'deadline', self.t0 + budget), self.t0 + budget)
+        self.t_gen = self.t0 + 0.35 * budget
+        self.cases = []          # (kind, inp, stream, requests, real)
+        self.dis = {}            # signature -> disagreement (smallest seen)
+        self.hist = {'kind': {}, 'stream': {}, 'size': {}, 'outcome': {}}
+        self.requests = self.nontrivial = self.ties = 0
+        self.samples = []
+
+    def more(self):
+        return time.time() < self.t_gen
+
+    def count(self, h, k):
+        self.hist[h][k] = self.hist[h].get(k, 0) + 1
+
+    def record(self, kind, inp, cls, detail, op, args, model, real):
+        sig = '%s|%s' % (kind, cls)
+        d = {'signature': sig, 'what': '%s: %s' % (sig, detail)[:600], 'op': op, 'args': args,
+             'model': model, 'real': real, 'seed': self.ctx.seed, 'kind': kind, 'input': inp}
+        old = self.dis.get(sig)
+        if old is None or KINDS[kind].size(inp) < KINDS[old['kind']].size(old['input']):
+            self.dis[sig] = d
+        return d
+
+    def add(self, kind, inp, stream='-'):
+        k = KINDS[kind]
+        if k.prop != self.prop:
+            return
+        try:
+            reqs, real = k.case(inp)
+        except Exception as e:      # the real code raised something the model does not know
+            self.requests += 1
+            self.count('kind', kind)
+            self.count('outcome', 'raises ' + type(e).__name__)
+            self.record(kind, inp, 'raises %s' % type(e).__name__, '%s on %s' % (
+                str(e)[:150], _brief(inp)), getattr(k, 'op', None), None, None,
+                'raises %s' % type(e).__name__)
+            return
+        self.cases.append((kind, inp, stream, reqs, real))
+
+    def evaluate(self, cases):
+        """Run the model on the cases (batched) -> list of judge results."""
+        flat = [r for c in cases for r in c[3]]
+        ans = []
+        for s in range(0, len(flat), BATCH):
+            ans.extend(self.ctx.driver.run(flat[s:s + BATCH]))
+        out, pos = [], 0
+        for (kind, inp, stream, reqs, real) in cases:
+            a = ans[pos:pos + len(reqs)]
+            pos += len(reqs)
+            try:
+                out.append(KINDS[kind].judge(inp, a, real))
+            except Exception as e:
+                out.append(('judge crashed %s' % type(e).__name__, str(e)[:200], None))
+        return out
+
+    def run(self):
+        verdicts = self.evaluate(self.cases)
+        for (kind, inp, stream, reqs, real), v in zip(self.cases, verdicts):
+            k = KINDS[kind]
+            self.requests += len(reqs)
+            self.count('kind', kind)
+            self.count('stream', stream)
+            self.count('size', min(k.size(inp), 64))
+            if v == 'tie':
+                self.ties += 1
+                self.count('outcome', 'float tie')
+                continue
+            try:
+                nt = k.nontrivial(inp, real)
+            except Exception:
+                nt = False
+            self.nontrivial += 1 if nt else 0
+            if v is None:
+                self.count('outcome', _outcome(real))
+                if nt and len(self.samples) < 3 and k.size(inp) <= 8 and \
+                        kind not in [s['kind'] for s in self.samples]:
+                    self.samples.append({'kind': kind, 'input': inp, 'op': reqs[0][0],
+                                         'real': _jsonable(real)})
+                continue
+            self.count('outcome', 'DISAGREE')
+            self.record(kind, inp, v[0], v[1], reqs[0][0], reqs[0][1], v[2], _jsonable(real))
+        # shrink the representative of every signature while there is time
+        for sig in sorted(self.dis):
+            self.dis[sig] = self.shrink(self.dis[sig])
+        return {
+            'requests': self.requests, 'nontrivial': self.nontrivial, 'rule': RULES[self.prop],
+            'disagreements': [self.dis[s] for s in sorted(self.dis)],
+            'float_ties': self.ties, 'histograms': self.hist, 'samples': self.samples,
+            'seconds': round(time.time() - self.t0, 1)}
+
+    def one(self, kind, inp):
+        """Evaluate a single input -> disagreement dict, 'tie' or None."""
+        sub = _Engine(self.ctx, KINDS[kind].prop)
+        sub.t_end = self.t_end
+        sub.add(kind, inp)
+        if sub.dis:
+            return list(sub.dis.values())[0]
+        (v,) = sub.evaluate(sub.cases)
+        if v is None or v == 'tie':
+            return v
+        (kind, inp, stream, reqs, real) = sub.cases[0]
+        return sub.record(kind, inp, v[0], v[1], reqs[0][0], reqs[0][1], v[2], _jsonable(real))
+
+    def shrink(self, d):
+        kind = d['kind']
+        k = KINDS[kind]
+        for _ in range(6):
+            if time.time() + 5 > self.t_end:
+                break
+            cands = k.shrink(d['input'])[:400]
+            if not cands:
+                break
+            sub = _Engine(self.ctx, k.prop)
+            for c in cands:
+                sub.add(kind, c)
+            found = [x for x in sub.dis.values() if x['signature'] == d['signature']]
+            if sub.cases:
+                for (kd, inp, stream, reqs, real), v in zip(sub.cases, sub.evaluate(sub.cases)):
+                    if v is not None and v != 'tie' and '%s|%s' % (kd, v[0]) == d['signature']:
+                        found.append(sub.record(kd, inp, v[0], v[1], reqs[0][0], reqs[0][1],
+                                                v[2], _jsonable(real)))
+            if not found:
+                break
+            d = min(found, key=lambda x: k.size(x['input']))
+        return d
+
+
+def _brief(inp):
+    s = repr(inp)
+    return s if len(s) < 300 else s[:300] + '…'
+
+
+def _outcome(real):
+    if isinstance(real, dict) and 'res' in real:
+        r = real['res']
+        return 'AssertionError' if r == 'assert' else 'vertices'
+    if isinstance(real, dict) and 'joined' in real:
+        return '%d chain(s)' % min(len(real['joined']), 6)
+    return 'ok'
+
+
+def _jsonable(real):
+    if isinstance(real, dict) and 'res' in real:
+        return real['res']
+    if isinstance(real, dict) and 'joined' in real:
+        return real['grouped'] if real['grouped'] is not None else real['joined']
+    return real
+
+
+RULES = {
+    'C15': 'one comparison = one model request (kept positions) against one run of the real '
+           'method on the same vertex list; fixed corpus (degenerate loops in every rotation, '
+           'every AssertionError branch), decorated star loops in every rotation, near-threshold '
+           'walks, shallow curves (every 3 consecutive vertices colinear within tolerance, runs '
+           'accumulate beyond it) in the XY plane / rotated / in random planes; non-trivial = '
+           'the real method removes at least one vertex or raises AssertionError',
+    'C18': 'one comparison = model chains against _group_vertices and join_segments on the same '
+           'segment soup (lattice soups with jitter below tol/4, exact-threshold dyadic soups, '
+           'shuffled chains / rings / stars); non-trivial = some chain has more than 2 vertices',
+}
+
+
+# ====================================================================== generators (C15)
+def base_loop(R, k):
     """Star-shaped loop with k corners, each turning by at least 5 degrees."""
     while True:
         angs = sorted(R.uniform(0, 2 * math.pi) for _ in range(k))
@@ -61,7 +716,7 @@ def base_loop(k):
             return pts
 
 
-def decorate(pts, dup=True):
+def decorate(R, pts, dup=True):
     """0..3 exactly collinear dyadic points per edge, 0..2 exact duplicates per vertex."""
     out = []
     k = len(pts)
@@ -77,16 +732,15 @@ def decorate(pts, dup=True):
     return out
 
 
-def jitter(pts, amp):
+def jitter(R, pts, amp):
     return [(x + R.uniform(-amp, amp), y + R.uniform(-amp, amp)) for x, y in pts]
 
 
 def rotations(pts):
-    for r in range(len(pts)):
-        yield pts[r:] + pts[:r]
+    return [pts[r:] + pts[:r] for r in range(len(pts))]
 
 
-def near_threshold(n, tol):
+def near_threshold(R, n, tol):
     """Random walk whose vertices are offset from the chord by amounts around tol/2."""
     pts = [(0.0, 0.0)]
     ang = R.uniform(0, 2 * math.pi)
@@ -101,155 +755,179 @@ def near_threshold(n, tol):
     return pts
 
 
-# ------------------------------------------------------------------ real runs
-def idx_of(orig, kept):
-    pos = dict((id(p), i) for i, p in enumerate(orig))
-    return [pos[id(p)] for p in kept]
+def shallow_curve(R, n, tol):
+    """y = k x^2 at spacing s with k s^2 = tol / c, c in (2.3, 9): the triangle of three
+    consecutive vertices has height < tol (colinear), the triangle from the last kept vertex
+    over m steps exceeds the tolerance once m >= c/2 (about): a scan that measures from the
+    direct predecessor instead of the last kept vertex removes everything."""
+    c = R.uniform(2.3, 9.0)
+    s = R.choice([1.0, 1.0, 0.5, 2.0])
+    k = tol / (c * s * s)
+    sgn = R.choice([1.0, -1.0])
+    flip = R.choice([None, None, n // 2])    # S-curve: curvature changes sign half way
+    pts = []
+    for j in range(n):
+        x = s * j
+        if flip is not None and j > flip:
+            xf = s * flip
+            y = sgn * k * (xf * xf + 2 * xf * (x - xf) - (x - xf) ** 2)
+        else:
+            y = sgn * k * x * x
+        pts.append((x, y))
+    return pts, sgn
 
 
-def real_polygon(pts, tol):
-    vs = [Point2D(x, y) for x, y in pts]
-    poly = Polygon2D(vs)
-    try:
-        new = poly.remove_colinear_vertices(tol)
-    except AssertionError:
-        return 'assert'
-    return idx_of(vs, new.vertices)
+def place2(R, pts):
+    """Random rigid motion in the plane (identity with probability 1/3)."""
+    if R.random() < 0.33:
+        return [tuple(p) for p in pts]
+    a = R.uniform(0, 2 * math.pi)
+    ca, sa = math.cos(a), math.sin(a)
+    tx, ty = R.uniform(-20, 20), R.uniform(-20, 20)
+    return [(tx + ca * x - sa * y, ty + sa * x + ca * y) for x, y in pts]
 
 
-_face = Face3D([Point3D(0, 0, 0), Point3D(1, 0, 0), Point3D(0, 1, 0)])
+def rand_frame(R):
+    """Random orthonormal frame (o, ex, ey, n)."""
+    while True:
+        n = Vector3D(R.gauss(0, 1), R.gauss(0, 1), R.gauss(0, 1))
+        w = Vector3D(R.gauss(0, 1), R.gauss(0, 1), R.gauss(0, 1))
+        if n.magnitude > 0.1 and n.cross(w).magnitude > 0.1:
+            break
+    n = n.normalize()
+    ex = n.cross(w).normalize()
+    ey = n.cross(ex).normalize()
+    o = Point3D(R.uniform(-20, 20), R.uniform(-20, 20), R.uniform(-20, 20))
+    return o, ex, ey, n
 
 
-def real_face(pts, tol):
-    p2 = [Point2D(x, y) for x, y in pts]
-    p3 = [Point3D(x, y, 0) for x, y in pts]
-    try:
-        new = _face._remove_colinear(p3, p2, tol)
-    except AssertionError:
-        return None
-    return idx_of(p3, new)
+def lift(frame, pts):
+    o, ex, ey, n = frame
+    return [(o.x + ex.x * x + ey.x * y, o.y + ex.y * x + ey.y * y, o.z + ex.z * x + ey.z * y)
+            for x, y in pts]
 
 
-def real_dup(pts, tol):
-    vs = [Point2D(x, y) for x, y in pts]
-    poly = Polygon2D(vs)
-    try:
-        new = poly.remove_duplicate_vertices(tol)
-    except AssertionError:
-        return 'assert'
-    return idx_of(vs, new.vertices)
+def fixed_c15(E):
+    tol = 0.01
+    sq = [(0.0, 0.0), (2.0, 0.0), (2.0, 2.0), (0.0, 2.0)]
+    sqm = [(0.0, 0.0), (1.0, 0.0), (2.0, 0.0), (2.0, 1.0), (2.0, 2.0), (1.0, 2.0), (0.0, 2.0),
+           (0.0, 1.0)]
+    tri_dup = [(0.0, 0.0), (0.0, 0.0), (3.0, 0.0), (3.0, 0.0), (3.0, 0.0), (0.0, 4.0)]
+    par = [(float(x), 0.002 * x * x) for x in range(9)]
+    for pts in (sq, sqm, tri_dup, par + [(8.0, -5.0), (0.0, -5.0)]):
+        for rot in rotations(pts) + rotations(pts[::-1]):
+            for kd in (K_POLYGON, K_FACE, K_DUP):
+                E.add(kd, {'pts': rot, 'tol': tol}, 'fixed')
+            p3 = [(x, y, 0.5 * x + 0.25 * y + 3) for x, y in rot]
+            E.add(K_DUP3, {'pts': p3, 'tol': tol}, 'fixed')
+            E.add(K_FACE3, {'pts': p3, 'tol': tol}, 'fixed')
+            E.add(K_FACE3, {'pts': [(x, y, 1.0) for x, y in rot], 'tol': tol,
+                            'plane': [[0.0, 0.0, -1.0], [0.0, 0.0, 1.0]]}, 'fixed')
+    # degenerate: everything collinear / all equal (exercises the assert of the seam patch)
+    for n in (3, 4, 5, 7):
+        for pts in ([(float(i), 0.0) for i in range(n)], [(1.0, 1.0)] * n,
+                    [(0.0, 0.0)] * (n - 1) + [(1.0, 0.0)],
+                    [(0.0, 0.0), (1.0, 0.0)] + [(1.0, 1.0)] * (n - 2)):
+            for rot in rotations(pts):
+                for kd in (K_POLYGON, K_FACE, K_DUP):
+                    E.add(kd, {'pts': rot, 'tol': tol}, 'fixed-degenerate')
+    # open chains: 3 vertices (returned as is), everything collinear (2 left: assert), curve
+    for pts in ([(0.0, 0.0), (1.0, 0.0), (2.0, 0.0)], [(float(i), 0.0) for i in range(4)],
+                [(float(i), 0.0) for i in range(6)], sqm, sqm[::-1], par, par[::-1],
+                [(0.0, 0.0)] * 4, [(0.0, 0.0), (0.0, 0.0), (1.0, 0.0), (1.0, 1.0), (1.0, 1.0)]):
+        E.add(K_PL2, {'pts': pts, 'tol': tol}, 'fixed')
+        E.add(K_PL3, {'pts': [(x, y, 0.0) for x, y in pts], 'tol': tol}, 'fixed')
+        E.add(K_PL3, {'pts': [(x, y, 2 * x - y + 1) for x, y in pts], 'tol': tol}, 'fixed')
 
 
-def real_dup3(pts3, tol):
-    vs = [Point3D(*p) for p in pts3]
-    try:
-        face = Face3D(vs)
-        new = face.remove_duplicate_vertices(tol)
-    except AssertionError:
-        return 'assert'
-    return idx_of(vs, new.vertices)
+def gen_c15(E, seed):
+    fixed_c15(E)
+    R = random.Random('%s/corr.cleanup/C15/loops' % seed)
+    S = random.Random('%s/corr.cleanup/C15/shallow' % seed)
+    T = random.Random('%s/corr.cleanup/C15/threshold' % seed)
+    tols = [1e-3, 1e-2, 0.0078125]
+    scale = 14 if E.thorough else 1
+    n_loops, n_thr, n_shal = 24 * scale, 110 * scale, 70 * scale
+    rounds = max(n_loops, n_thr, n_shal)
+    for k in range(rounds):
+        if not E.more():
+            break
+        # ---------------- decorated loops, every rotation
+        if k < n_loops:
+            base = base_loop(R, R.randint(3, 8))
+            if R.random() < 0.5:
+                base = base[::-1]
+            tol = R.choice(tols)
+            dec = decorate(R, base)
+            stream = 'decorated'
+            if k % 3 == 2:
+                dec = jitter(R, dec, tol / 10)
+                stream = 'decorated+jitter'
+            if len(dec) <= 40:
+                a3, b3, c3 = R.choice([0, 0.5, -1]), R.choice([0, 0.25, 2]), R.choice([0, 3])
+                frame = rand_frame(R)
+                for rot in rotations(dec):
+                    E.add(K_POLYGON, {'pts': rot, 'tol': tol}, stream)
+                    E.add(K_FACE, {'pts': rot, 'tol': tol}, stream)
+                    E.add(K_DUP, {'pts': rot, 'tol': tol}, stream)
+                    r3 = [(x, y, a3 * x + b3 * y + c3) for x, y in rot]
+                    E.add(K_DUP3, {'pts': r3, 'tol': tol}, stream)
+                for rot in R.sample(rotations(dec), min(len(dec), 6)):
+                    E.add(K_FACE3, {'pts': lift(frame, rot), 'tol': tol}, stream + '/plane')
+            # open chains: the decorated loop cut open
+            for rot in rotations(decorate(R, base, dup=False))[:6]:
+                if len(rot) < 3:
+                    continue
+                E.add(K_PL2, {'pts': rot, 'tol': tol}, 'decorated-open')
+                a, b, c = R.choice([0, 0.5, -1]), R.choice([0, 0.25, 2]), R.choice([0, 3])
+                E.add(K_PL3, {'pts': [(x, y, a * x + b * y + c) for x, y in rot], 'tol': tol},
+                      'decorated-open')
+        # ---------------- near-threshold walks
+        if k < n_thr:
+            tol = T.choice(tols)
+            pts = near_threshold(T, T.randint(3, 14), tol)
+            for kd in (K_POLYGON, K_FACE, K_DUP, K_PL2):
+                E.add(kd, {'pts': pts, 'tol': tol}, 'near-threshold')
+            p3 = [(x, y, T.choice([0.0, 0.0, tol / 2, 1.0])) for x, y in pts]
+            E.add(K_PL3, {'pts': p3, 'tol': tol}, 'near-threshold')
+        # ---------------- shallow curves
+        if k < n_shal:
+            tol = S.choice(tols)
+            n = S.randint(6, 28)
+            cur, sgn = shallow_curve(S, n, tol)
+            if S.random() < 0.5:
+                cur = cur[::-1]
+            # open chains, in the XY plane (rigidly placed) and in random planes
+            pl2 = place2(S, cur)
+            E.add(K_PL2, {'pts': pl2, 'tol': tol}, 'shallow')
+            E.add(K_PL3, {'pts': [(x, y, 0.0) for x, y in pl2], 'tol': tol}, 'shallow/xy')
+            E.add(K_PL3, {'pts': lift(rand_frame(S), cur), 'tol': tol}, 'shallow/plane')
+            # closed loops: the curve plus two far corners, some rotations of the start
+            xs = [p[0] for p in cur]
+            far = -sgn * 6.0
+            loop = cur + ([(xs[-1], far), (xs[0], far)])
+            rots = rotations(loop)
+            pick = rots if E.thorough and k % 4 == 0 else S.sample(rots, min(len(rots), 5))
+            for rot in pick:
+                rp = place2(S, rot)
+                E.add(K_POLYGON, {'pts': rp, 'tol': tol}, 'shallow')
+                E.add(K_FACE, {'pts': rp, 'tol': tol}, 'shallow')
+                E.add(K_FACE3, {'pts': [(x, y, 0.0) for x, y in rp], 'tol': tol}, 'shallow/xy')
+                E.add(K_FACE3, {'pts': lift(rand_frame(S), rot), 'tol': tol}, 'shallow/plane')
 
 
-def real_polyline2(pts, tol):
-    vs = [Point2D(x, y) for x, y in pts]
-    try:
-        new = Polyline2D(vs).remove_colinear_vertices(tol)
-    except AssertionError:
-        return 'assert'
-    return idx_of(vs, new.vertices)
-
-
-def real_polyline3(pts, tol):
-    vs = [Point3D(x, y, z) for x, y, z in pts]
-    try:
-        new = Polyline3D(vs).remove_colinear_vertices(tol)
-    except AssertionError:
-        return 'assert'
-    return idx_of(vs, new.vertices)
-
-
-def norm_model(val, ctor_min=3):
-    """Model positions -> what the public method does: constructor asserts >= 3 vertices."""
-    if val is None:
-        return 'assert'
-    return 'assert' if len(val) < ctor_min else val
-
-
-# ------------------------------------------------------------------ build the C15 cases
-cases = []   # (kind, op, args, real)
-tols = [1e-3, 1e-2, 0.0078125]
-for k in range(40):
-    base = base_loop(R.randint(3, 8))
-    if R.random() < 0.5:
-        base = base[::-1]
-    tol = R.choice(tols)
-    dec = decorate(base)
-    if k % 3 == 2:
-        dec = jitter(dec, tol / 10)
-    if len(dec) > 40:
-        continue
-    for rot in rotations(dec):
-        cases.append(('polygon', 'model.remove_colinear_polygon',
-                      [[[W(x), W(y)] for x, y in rot], W(tol)], real_polygon(rot, tol)))
-        cases.append(('face', 'model.remove_colinear_polygon',
-                      [[[W(x), W(y)] for x, y in rot], W(tol)], real_face(rot, tol)))
-        cases.append(('dup', 'model.remove_duplicate',
-                      [[[W(x), W(y)] for x, y in rot], W(tol)], real_dup(rot, tol)))
-        a3, b3, c3 = R.choice([0, 0.5, -1]), R.choice([0, 0.25, 2]), R.choice([0, 3])
-        r3 = [(x, y, a3 * x + b3 * y + c3) for x, y in rot]
-        cases.append(('dup3-face', 'model.remove_duplicate3',
-                      [[[W(x), W(y), W(zz)] for x, y, zz in r3], W(tol)], real_dup3(r3, tol)))
-    # open chains: cut the decorated loop open at every rotation
-    for rot in list(rotations(decorate(base, dup=False)))[:6]:
-        if len(rot) < 3:
-            continue
-        cases.append(('polyline2', 'model.remove_colinear_polyline2',
-                      [[[W(x), W(y)] for x, y in rot], W(tol)], real_polyline2(rot, tol)))
-        z = [R.choice([0.0, 1.0, 2.5]) for _ in rot]
-        # lift to 3D on a plane z = ax + by + c: collinearity is preserved exactly for dyadics
-        a, b, c = R.choice([0, 0.5, -1]), R.choice([0, 0.25, 2]), R.choice([0, 3])
-        p3 = [(x, y, a * x + b * y + c) for x, y in rot]
-        cases.append(('polyline3', 'model.remove_colinear_polyline3',
-                      [[[W(x), W(y), W(zz)] for x, y, zz in p3], W(tol)], real_polyline3(p3, tol)))
-for k in range(150):
-    tol = R.choice(tols)
-    n = R.randint(3, 14)
-    pts = near_threshold(n, tol)
-    cases.append(('polygon-rand', 'model.remove_colinear_polygon',
-                  [[[W(x), W(y)] for x, y in pts], W(tol)], real_polygon(pts, tol)))
-    cases.append(('face-rand', 'model.remove_colinear_polygon',
-                  [[[W(x), W(y)] for x, y in pts], W(tol)], real_face(pts, tol)))
-    cases.append(('dup-rand', 'model.remove_duplicate',
-                  [[[W(x), W(y)] for x, y in pts], W(tol)], real_dup(pts, tol)))
-    cases.append(('polyline2-rand', 'model.remove_colinear_polyline2',
-                  [[[W(x), W(y)] for x, y in pts], W(tol)], real_polyline2(pts, tol)))
-    p3 = [(x, y, R.choice([0.0, 0.0, tol / 2, 1.0])) for x, y in pts]
-    cases.append(('polyline3-rand', 'model.remove_colinear_polyline3',
-                  [[[W(x), W(y), W(z)] for x, y, z in p3], W(tol)], real_polyline3(p3, tol)))
-# degenerate: everything collinear / all equal (exercises the assert of the seam patch)
-for n in (3, 4, 5, 7):
-    for pts in ([(float(i), 0.0) for i in range(n)], [(1.0, 1.0)] * n,
-                [(0.0, 0.0)] * (n - 1) + [(1.0, 0.0)]):
-        for rot in rotations(pts):
-            cases.append(('polygon-degenerate', 'model.remove_colinear_polygon',
-                          [[[W(x), W(y)] for x, y in rot], W(0.01)], real_polygon(rot, 0.01)))
-            cases.append(('face-degenerate', 'model.remove_colinear_polygon',
-                          [[[W(x), W(y)] for x, y in rot], W(0.01)], real_face(rot, 0.01)))
-            cases.append(('dup-degenerate', 'model.remove_duplicate',
-                          [[[W(x), W(y)] for x, y in rot], W(0.01)], real_dup(rot, 0.01)))
-
-
-# ------------------------------------------------------------------ C18 soups
-def soup(dim):
+# ====================================================================== generators (C18)
+def soup(R, dim, big=False):
+    """Lattice chains cut into segments, end points jittered by less than tol/4, shuffled."""
     tol = R.choice([1e-3, 1e-2])
     segs = []
-    for _ in range(R.randint(1, 6)):
+    for _ in range(R.randint(1, 10 if big else 6)):
         n = R.randint(2, 7)
         pts = [tuple(R.randint(-6, 6) / 2.0 for _ in range(dim)) for _ in range(n)]
         if R.random() < 0.4:
             pts.append(pts[0])
         for a, b in zip(pts, pts[1:]):
-            if a == b:
+            if a == b and R.random() < 0.9:
                 continue
             ja = tuple(c + R.uniform(-tol / 4, tol / 4) for c in a) if R.random() < 0.5 else a
             jb = tuple(c + R.uniform(-tol / 4, tol / 4) for c in b) if R.random() < 0.5 else b
@@ -258,97 +936,134 @@ def soup(dim):
     return segs, tol
 
 
-join_cases = []
-for k in range(400):
-    dim = 2 if k % 2 == 0 else 3
-    segs, tol = soup(dim)
-    if not segs:
-        continue
-    if dim == 2:
-        objs = [LineSegment2D.from_end_points(Point2D(*a), Point2D(*b)) for a, b in segs]
-        wp = w2
-    else:
-        objs = [LineSegment3D.from_end_points(Point3D(*a), Point3D(*b)) for a, b in segs]
-        wp = w3
-    # the model is fed the end points the library itself reads (`seg.p1`, `seg.p2 = p + v`)
-    args = [[[wp(s.p1), wp(s.p2)] for s in objs], W(tol)]
-    if len(objs) >= 2:
-        real = [[wp(p) for p in chain] for chain in _group_vertices(objs, tol)]
-    else:
-        real = [[wp(objs[0].p1), wp(objs[0].p2)]]
-    cls = Polyline2D if dim == 2 else Polyline3D
-    joined = cls.join_segments(objs, tol)
-    shape = [len(j.vertices) for j in joined]
-    join_cases.append(('join%d' % dim, 'model.join_segments' if dim == 2 else 'model.join_segments3',
-                       args, real, shape))
+def threshold_soup(R, dim):
+    """Dyadic lattice and dyadic tolerance: end points offset by exactly 0, tol/2, tol,
+    tol + 2^-20, 2 tol in one coordinate (double arithmetic is exact: no rounding)."""
+    tol = R.choice([0.0078125, 0.0009765625, 0.25])
+    offs = [0.0, 0.0, tol / 2, -tol / 2, tol, -tol, tol + 2.0 ** -20, -tol - 2.0 ** -20,
+            2 * tol]
+    segs = []
+    for _ in range(R.randint(1, 4)):
+        n = R.randint(2, 6)
+        pts = [tuple(float(R.randint(-3, 3)) for _ in range(dim)) for _ in range(n)]
+        if R.random() < 0.4:
+            pts.append(pts[0])
+        for a, b in zip(pts, pts[1:]):
+            if a == b:
+                continue
 
-# ------------------------------------------------------------------ run the models
-drv = lbg.Driver()
-reqs = [(op, args) for (_, op, args, _) in cases] + [(op, args) for (_, op, args, _, _) in join_cases]
-ans = drv.run(reqs)
-agree, bad = {}, []
-for (kind, op, args, real), (ok, val) in zip(cases, ans[:len(cases)]):
-    if not ok:
-        bad.append((kind, 'driver error', val))
-        continue
-    if kind.startswith('face'):
-        model = val          # _remove_colinear returns a list: no constructor assert
-    elif kind.startswith('polyline'):
-        model = norm_model(val)
-    else:
-        model = norm_model(val)
-    if model == real:
-        agree[kind] = agree.get(kind, 0) + 1
-    else:
-        bad.append((kind, args, 'model', model, 'real', real))
-for (kind, op, args, real, shape), (ok, val) in zip(join_cases, ans[len(cases):]):
-    if ok and val == real and [len(c) for c in val] == shape:
-        agree[kind] = agree.get(kind, 0) + 1
-    else:
-        bad.append((kind, args, 'model', val, 'real', real, shape))
+            def move(p):
+                q = list(p)
+                q[R.randrange(dim)] += R.choice(offs)
+                if R.random() < 0.3:
+                    q[R.randrange(dim)] += R.choice(offs)
+                return tuple(q)
+            ja, jb = move(a), move(b)
+            segs.append((jb, ja) if R.random() < 0.5 else (ja, jb))
+    R.shuffle(segs)
+    return segs, tol
 
 
-def is_float_tie(kind, args, model, real):
-    """A disagreement is a float tie when, at the first vertex on which the two differ, the
-    exact test value 4a^2 / (b^2 tol^2) is within 1e-9 of 1 for some admissible chord start."""
-    from fractions import Fraction as F
-    if not isinstance(model, list) or not isinstance(real, list) or 'dup' in kind:
-        return False
-    pts = [[F(c) for c in p] for p in args[0]]
-    tol = F(args[1])
-    n = len(pts)
-    diff = sorted(set(model) ^ set(real))
-    if not diff:
-        return False
-    j = diff[0]
-    v1, v = pts[j], pts[(j + 1) % n]
-    for v2 in pts:
-        d1 = [a - b for a, b in zip(v2, v1)]
-        d2 = [a - b for a, b in zip(v, v1)]
-        if len(d1) == 2:
-            asq = (d1[0] * d2[1] - d1[1] * d2[0]) ** 2
+def fixed_c18(E):
+    for dim, kd in ((2, K_J2), (3, K_J3)):
+        def p(x, y):
+            return (float(x), float(y)) if dim == 2 else (float(x), float(y), float(x - y))
+        a, b, c, d, e = p(0, 0), p(1, 0), p(1, 1), p(0, 1), p(5, 5)
+        tol = 0.01
+        corpus = [
+            [], [(a, b)], [(a, a)],
+            [(a, b), (b, c)], [(a, b), (c, b)], [(b, a), (b, c)], [(b, a), (c, b)],
+            [(b, c), (a, b)], [(c, b), (a, b)], [(a, b), (a, b)], [(a, b), (b, a)],
+            [(a, b), (c, d)], [(a, b), (e, e)], [(a, a), (a, b)],
+            [(a, b), (b, c), (c, a)], [(a, b), (c, a), (b, c)],
+            [(a, b), (b, c), (c, d), (d, a)], [(c, d), (a, b), (d, a), (b, c)],
+            [(a, b), (a, c), (a, d)], [(b, a), (c, a), (d, a)], [(a, b), (c, b), (d, b), (e, b)],
+            [(a, b), (c, d), (e, a)], [(a, b), (c, d), (b, c)], [(c, d), (a, b), (b, c), (e, d)],
+            [(a, b), (b, c), (b, d), (d, e), (c, e)],
+        ]
+        for segs in corpus:
+            E.add(kd, {'segs': [[list(s[0]), list(s[1])] for s in segs], 'tol': tol}, 'fixed')
+        # exactly at / just beyond the tolerance (dyadic: no rounding)
+        t = 0.0078125
+        for off in (0.0, t / 2, t, t + 2.0 ** -20, -t, -t - 2.0 ** -20):
+            b2 = (b[0] + off,) + tuple(b[1:])
+            b3 = tuple(b[:-1]) + (b[-1] + off,)
+            for segs in ([(a, b), (b2, c)], [(a, b), (c, b2)], [(b2, a), (b, c)],
+                         [(a, b), (b3, c)], [(c, b3), (b, a)]):
+                E.add(kd, {'segs': [[list(s[0]), list(s[1])] for s in segs], 'tol': t},
+                      'fixed-threshold')
+
+
+def gen_c18(E, seed):
+    fixed_c18(E)
+    R = random.Random('%s/corr.cleanup/C18/soup' % seed)
+    T = random.Random('%s/corr.cleanup/C18/threshold' % seed)
+    n = 900 * (14 if E.thorough else 1)
+    for k in range(n):
+        if not E.more():
+            break
+        dim = 2 if k % 2 == 0 else 3
+        kd = K_J2 if dim == 2 else K_J3
+        if k % 3 == 2:
+            segs, tol = threshold_soup(T, dim)
+            stream = 'exact-threshold'
         else:
-            c = (d1[1] * d2[2] - d1[2] * d2[1], d1[2] * d2[0] - d1[0] * d2[2],
-                 d1[0] * d2[1] - d1[1] * d2[0])
-            asq = sum(x * x for x in c)
-        bsq = max(sum((a - b) ** 2 for a, b in zip(v, v2)), tol * tol)
-        if bsq * tol * tol != 0 and abs(4 * asq / (bsq * tol * tol) - 1) < F(1, 10 ** 9):
-            return True
-    return False
+            big = E.thorough and k % 7 == 0
+            segs, tol = soup(R, dim, big)
+            stream = 'lattice+jitter' + ('/big' if big else '')
+        if segs:
+            E.add(kd, {'segs': [[list(a), list(b)] for a, b in segs], 'tol': tol}, stream)
 
 
-ties = [b for b in bad if len(b) == 6 and is_float_tie(b[0], b[1], b[3], b[5])]
-bad = [b for b in bad if b not in ties]
-print('float ties (exact test value within 1e-9 of the threshold; rounding decides): %d' % len(ties))
-n_assert = sum(1 for c in cases if c[3] in ('assert', None))
-n_multi = sum(1 for c in join_cases if any(len(ch) > 2 for ch in c[3]))
-n_many = sum(1 for c in join_cases if len(c[3]) > 1)
-print('C15 cases whose real run raised AssertionError: %d; join soups with a chain of >2 '
-      'vertices: %d, with >1 chain: %d' % (n_assert, n_multi, n_many))
-print('requests %d  driver wall %.1fs' % (len(reqs), drv.wall))
-for k in sorted(agree):
-    print('  agree %-20s %d' % (k, agree[k]))
-print('disagreements: %d' % len(bad))
-for b in bad[:5]:
-    print(b)
-sys.exit(1 if bad else 0)
+# ====================================================================== interface
+def run(ctx, prop):
+    E = _Engine(ctx, prop)
+    if prop == 'C15':
+        gen_c15(E, ctx.seed)
+    elif prop == 'C18':
+        gen_c18(E, ctx.seed)
+    else:
+        return {'requests': 0, 'nontrivial': 0, 'rule': 'no model of %s here' % prop,
+                'disagreements': [], 'float_ties': 0, 'histograms': {}, 'samples': []}
+    return E.run()
+
+
+def replay(ctx, disagreement):
+    """Re-run one recorded disagreement (its 'kind' and 'input') on the current tree."""
+    kind, inp = disagreement.get('kind'), disagreement.get('input')
+    if kind not in KINDS or inp is None:
+        return None
+    r = _Engine(ctx, KINDS[kind].prop).one(kind, inp)
+    return r if isinstance(r, dict) else None
+
+
+if __name__ == '__main__':
+    class Ctx(object):
+        pass
+    args = sys.argv[1:]
+    props = [a for a in args if a in PROPS] or PROPS
+    nums = [a for a in args if a.lstrip('-').isdigit()]
+    ctx = Ctx()
+    ctx.seed = int(nums[0]) if nums else int(os.environ.get('VERIF_SEED', '0'))
+    ctx.tier = 'thorough' if 'thorough' in args else os.environ.get('VERIF_TIER', 'quick')
+    ctx.broken = []
+    ctx.driver = lbg.Driver()
+    bad = 0
+    for prop in props:
+        ctx.deadline = time.time() + 3600
+        t = time.time()
+        r = run(ctx, prop)
+        print('%s seed %d %s: %d requests, %d non-trivial, %d float ties, %d disagreements, '
+              '%.1fs' % (prop, ctx.seed, ctx.tier, r['requests'], r['nontrivial'],
+                         r['float_ties'], len(r['disagreements']), time.time() - t))
+        for h in sorted(r['histograms']):
+            print('   %-8s %s' % (h, sorted(r['histograms'][h].items(), key=lambda kv: str(kv[0]))))
+        for s in r['samples']:
+            print('   sample', s)
+        for d in r['disagreements']:
+            bad += 1
+            print('   DISAGREE', d['what'][:400])
+            print('            input', _brief(d['input']))
+            again = replay(ctx, d)
+            print('            replay:', 'reproduced' if again else 'NOT reproduced')
+    sys.exit(1 if bad else 0)
